@@ -39,14 +39,37 @@ def decoded_kinds(table):
     return DECODED_KINDS
 
 
+ALIAS = {'PERF_THD_Data': 0xdead1000, 'PERF_STK_UHdr': 0xdead1004, 'PERF_STK_UData': 0xdead1008}
+STAMPS = ['up']          # 'down': the records carry DEcreasing timestamps (position in the stream, not the stamp, defines a window)
+CODES = ['stock']        # 'alias-added': the table names a second id for each nested sampler kind, listed after the stock one;
+#                          'alias-used': the nested sampler records carry those second ids
+
+
 def run(events, table='stock'):
-    p = TracesParser(E.codes(), {}, {})
+    codes = E.codes()
+    if CODES[0] != 'stock':
+        codes = dict(codes)
+        for nm, i in ALIAS.items():
+            codes[i] = nm
+        if CODES[0] == 'alias-used':
+            stock = {E.n2i(nm): i for nm, i in ALIAS.items()}
+            events = [e._replace(eventid=stock[e.eventid], debugid=stock[e.eventid] | e.func_qualifier) if e.eventid in stock else e for e in events]
+    if STAMPS[0] == 'down':
+        n = len(events)
+        p = TracesParser(codes, {}, {})
+        _withdraw(p, table)
+        return list(p.feed_generator([e._replace(timestamp=1000 + n - i) for i, e in enumerate(events)]))
+    p = TracesParser(codes, {}, {})
+    _withdraw(p, table)
+    return list(p.feed_generator(E.restamp(events)))
+
+
+def _withdraw(p, table):
     # which kinds the tool decodes is the decoder table of the parser object that is fed: one withdrawn / one taught
     if table.startswith('minus:'):
         del p.handlers[table[6:]]
     elif table.startswith('plus:'):
         p.handlers[table[5:]] = p.handlers['RealFaultAddressInternal']
-    return list(p.feed_generator(E.restamp(events)))
 
 
 def prot_names(prot):
@@ -358,6 +381,15 @@ class C20(Check):
                                  outcome=h64(('vm', nested, result == 0)))
                         if bad:
                             acc.violation(bad[0], {'kind': 'vm', 'nested': list(nested), 'result': result, 'ftype': ftype, 'prot': 3}, bad[1])
+                        if ftype == 2 and result == 0 and len(nested) >= 2:
+                            STAMPS[0] = 'down'
+                            try:
+                                bad = judge_vmfault(nested, result, ftype, 3)
+                            finally:
+                                STAMPS[0] = 'up'
+                            acc.case(nontrivial=True, transitions=len(nested) + 2, state=h64(('vm', nested, 'down')), outcome=h64(('vm', nested, 'down')))
+                            if bad:
+                                acc.violation(bad[0] + '@decreasing-timestamps', {'kind': 'vm', 'nested': list(nested), 'result': result, 'ftype': ftype, 'prot': 3, 'stamps': 'down'}, bad[1])
                         if ftype == 2 and result in (0, 5):
                             for table in TABLES[1:]:
                                 bad = judge_vmfault(nested, result, ftype, 3, table=table)
@@ -418,10 +450,28 @@ class C20(Check):
                                      outcome=h64(('sa', flags, 'T' in items, 'H' in items)))
                             if bad:
                                 acc.violation(bad[0], {'kind': 'sampler', 'flags': flags, 'items': list(items), 'nframes': nframes, 'hflags': hflags}, bad[1])
+                            if flags in (0x9, 0x1) and nframes == 3 and hflags == 1:
+                                for codes in ('alias-added', 'alias-used'):
+                                    CODES[0] = codes
+                                    try:
+                                        bad = judge_sampler(flags, items, nframes, hflags)
+                                    finally:
+                                        CODES[0] = 'stock'
+                                    acc.case(nontrivial=len(items) >= 2, transitions=len(items) + 2, state=h64(('sa', items, codes)), outcome=h64(('sa', flags, codes)))
+                                    if bad:
+                                        acc.violation(bad[0] + '@table-with-two-ids-per-name', {'kind': 'sampler', 'flags': flags, 'items': list(items), 'nframes': nframes, 'hflags': hflags, 'codes': codes}, bad[1])
                         if not bad and acc.want_sample() and len(items) == 4 and flags == 0x9:
                             acc.sample({'sampler_flags': hex(flags), 'window': list(items), 'header_frames': nframes})
 
     def replay(self, case):
+        STAMPS[0] = case.get('stamps', 'up')
+        CODES[0] = case.get('codes', 'stock')
+        try:
+            return self._replay(case)
+        finally:
+            STAMPS[0], CODES[0] = 'up', 'stock'
+
+    def _replay(self, case):
         k = case['kind']
         if k == 'vm':
             bad = judge_vmfault(tuple(case['nested']), case['result'], case['ftype'], case['prot'], case.get('pid_base', 100), case.get('table', 'stock'))
